@@ -14,4 +14,13 @@ PROPS = {
                    'pyx12.validation:rec_ID_E:any', 'pyx12.validation:rec_ID_E5:any',
                    'pyx12.validation:rec_DT:any', 'pyx12.validation:rec_TM:any'],
     },
+    'C14': {
+        'level': 'proof',
+        'functions': [
+            'pyx12.syntax.is_syntax_valid',
+            'pyx12.map_if.segment_if._split_syntax',
+        ],
+        'crosscheck_functions': [],
+        'ground': ['c14'],
+    },
 }
